@@ -10,7 +10,8 @@ import JunoModel.C18.ProofsWhy
 /-!
 C18 — property theorems (statements only; helper lemmas are in `ProofsSV`, `ProofsRunner`, `ProofsOpen`
 (NewRunner's errors, read faults, histories), `ProofsBlockTx`, `ProofsSDL`, `ProofsHS`, `ProofsPipe`, `ProofsPruner`,
-`ProofsCompose` (runner × data model)). Every theorem in this module is an obligation listed in evidence/C18.json.
+`ProofsCompose` (runner × data model), `ProofsWhy` (round 5: the index `Run`'s error names, `String`, the last-target
+record over histories)). Every theorem in this module is an obligation listed in evidence/C18.json.
 
 THE MODEL IS THE CURRENT TREE (all recorded C18 defects are repaired in /repo: b4577f2, 69981ea,
 edddfcf, 197b4fe, 2d815bd, 322dd0d, 459a03c, dfe482d, 00e70b8, 1b3416d). The models still carry one
@@ -414,7 +415,9 @@ every image in which each block is either still in the previous layout or migrat
 particular the previous-layout database and every crash image — and for every sequence of
 `Migrate` calls interrupted in any way (cancellation at the loop head or in the source after any
 number of ranges, death with any subset of the emitted ranges committed, death before the final
-step): no block is ever lost or altered (`Inv` holds throughout); an undisturbed rerun returns
+step, failed writes, read errors with partial batches, and since round 5: death / a failed
+`DeletePrefix` AFTER the back-fill batch, and passes in which the write of batches holding nothing to
+migrate was elided): no block is ever lost or altered (`Inv` holds throughout); an undisturbed rerun returns
 `(nil, nil)`; and the final database is the database of an undisturbed run on the original
 image, block for block. -/
 theorem blocktx_resume_same_result (cfg : BlockTx.Cfg) (hA : cfg.overwriteMigrated = false)
